@@ -62,7 +62,7 @@ func (b *backoff) wait() {
 // durationForAttempt returns a duration for an attempt number, in a stateless way.
 func (b *backoff) durationForAttempt(attempt int) time.Duration {
 	b.setDefault()
-	expBackoff := math.Min(float64(b.Cap), float64(b.Base)*math.Pow(float64(b.Factor), float64(b.attempt)))
+	expBackoff := math.Min(float64(b.Cap), float64(b.Base)*math.Pow(float64(b.Factor), float64(attempt)))
 	d := int(math.Trunc(expBackoff))
 	if !b.NoJitter {
 		d = rand.Intn(d)
